@@ -28,8 +28,19 @@ func ClassGrammarGen(n int) *rapid.Generator[*Grammar] {
 			if items == 0 && U(t, 4, "keepempty") != 0 {
 				items = 1
 			}
+			// one class in twenty is wide: 66, 130 or 258 members (more than fit any table
+			// or counter sized for "a handful"), spread over Basic Latin and the blocks behind it
+			wide := U(t, 20, "wide") == 0
+			if wide {
+				items = Pick(t, []int{66, 130, 258}, "wideitems")
+			}
 			for j := 0; j < items; j++ {
 				switch k := U(t, 10, "itemkind"); {
+				case wide && k < 5:
+					e.Chars = append(e.Chars, rune(0x21+U(t, 0x260, "widechar")))
+				case wide && k < 9:
+					lo := rune(0x21 + U(t, 0x260, "widelo"))
+					e.Ranges = append(e.Ranges, lo, lo+rune(U(t, 6, "widespan")))
 				case k < 4:
 					e.Chars = append(e.Chars, Pick(t, classCharPool, "char"))
 				case k < 8:
